@@ -10,6 +10,7 @@ import (
 	"panmc/internal/panrun"
 
 	_ "panmc/checks/c02"
+	_ "panmc/checks/c03"
 	_ "panmc/checks/c04"
 	_ "panmc/checks/c05"
 	_ "panmc/checks/c06"
